@@ -295,6 +295,7 @@ type Runner struct {
 	haltAfter  bool
 	Rw *RewardShadow
 	NeedPending bool // compute the module's pending staking rewards per validator before every step
+	Ghost      bool // execute every step first on a discarded branch (C19 replays)
 	PoolShort  bool // set by the C12 machinery when the rewards pool cannot pay all claims (recorded finding)
 }
 
@@ -530,6 +531,9 @@ func (r *Runner) Step(s Step) {
 	if r.Hist != nil {
 		r.Hist.Steps = append(r.Hist.Steps, s)
 	}
+	if r.Ghost {
+		r.ghost(s)
+	}
 	if s.K == "block" {
 		o := r.ExecBlock(s)
 		r.Sh.ApplyBlock(o)
@@ -563,6 +567,38 @@ func (r *Runner) Step(s Step) {
 		}
 	}
 	r.Idx++
+}
+
+// ghost executes the coming step on a branch that is thrown away, as a node does all the time (CheckTx,
+// simulation, queries, proposals whose last message fails). Nothing of it may influence the real execution:
+// state that survives outside the store (keeper-level caches, package variables) shows up as a divergence
+// between a run with ghosts and a run without.
+func (r *Runner) ghost(s Step) {
+	w := r.W
+	defer func() { _ = recover() }()
+	gctx, _ := w.Ctx.CacheContext()
+	gctx = gctx.WithEventManager(sdk.NewEventManager())
+	switch s.K {
+	case "block":
+		// this block's end and the end of a following block on the same discarded branch
+		w.EndBlockOn(gctx)
+		dt := time.Duration(s.Block.DtNs)
+		if dt <= 0 {
+			dt = time.Second
+		}
+		g2 := gctx.WithBlockTime(gctx.BlockTime().Add(dt)).WithBlockHeight(gctx.BlockHeight() + 1)
+		w.EndBlockOn(g2)
+		w.EndBlockOn(g2.WithBlockTime(g2.BlockTime().Add(dt)).WithBlockHeight(g2.BlockHeight() + 1))
+	case "donate", "legacy_create", "legacy_update", "legacy_delete":
+	default:
+		if msg := r.buildMsg(s); msg != nil {
+			w.RunMsgOn(gctx, msg, true)
+			// and what the end-blocker would do right after it
+			w.EndBlockOn(gctx)
+			w.EndBlockOn(gctx.WithBlockTime(gctx.BlockTime().Add(time.Hour)).WithBlockHeight(gctx.BlockHeight() + 1))
+		}
+	}
+	r.Rep.Count("C19.ghost-executions", 1)
 }
 
 func (r *Runner) Finish() {
